@@ -18,5 +18,76 @@ def loop_items(ctx):
     return f
 
 
+TYPED_INPUT = {'root': 'RootObject', 'objects': {'RootObject': {'id': 'RootObject', 'properties': {
+    'color': {'type': {'type_id': 'enum_string', 'values': {'red': {}, 'green': {}}}, 'required': True},
+    'label': {'type': {'type_id': 'string'}, 'required': True},
+    'level': {'type': {'type_id': 'enum_integer', 'values': {1: {}, 2: {}}}, 'required': True},
+    'count': {'type': {'type_id': 'integer'}, 'required': True},
+    'ratio': {'type': {'type_id': 'float'}, 'required': True},
+    'flag': {'type': {'type_id': 'bool'}, 'required': True}}}}}
+
+
+def typed_collection_part(ctx):
+    """Inferred schemas of collections built from expressions: for every pair of differently (or deceptively similarly)
+    typed workflow inputs, the list [a, b], the list [b, a] and the map {k: a, l: b} as a workflow output and as a step
+    input.  The oracle is the property itself: either preparation refuses the workflow, or every valid input yields an
+    output that passes the engine's own output validation (no internal 'bug:' error)."""
+    import itertools
+    import gen
+    import vlib
+    from vlib import lit, ref, tmap, tlist
+    rng = ctx  # unused
+    fields = ['color', 'label', 'level', 'count', 'ratio', 'flag']
+    inputs = [{'color': 'green', 'label': 'hello', 'level': 2, 'count': 7, 'ratio': 1.5, 'flag': True},
+              {'color': 'red', 'label': 'green', 'level': 1, 'count': 1, 'ratio': 2.0, 'flag': False}]
+    scs, names = [], []
+    pairs = list(itertools.permutations(fields, 2))
+    if ctx.quick:
+        pairs = [p for p in pairs if set(p) & {'color', 'level'}][:14]
+    for a, b in pairs:
+        for shape, where in itertools.product(('list', 'map', 'list-of-maps', 'list-of-lists'), ('output', 'step-input')):
+            if shape == 'list':
+                coll = tlist([ref('input.' + a), ref('input.' + b)])
+            elif shape == 'map':
+                coll = tmap({'k': ref('input.' + a), 'l': ref('input.' + b)})
+            elif shape == 'list-of-maps':       # objects with different properties
+                coll = tlist([tmap({'p': ref('input.' + a)}), tmap({'p': ref('input.' + a), 'q': ref('input.' + b)})])
+            else:
+                coll = tlist([tlist([ref('input.' + a)]), tlist([ref('input.' + b)])])
+            sin = {'id': lit('s')}
+            out = {'t': ref('steps.s.outputs.success.tok')}
+            if where == 'output':
+                out['c'] = coll
+            else:
+                sin['deps'] = tmap({'c': coll})
+            wf = {'input_schema': TYPED_INPUT,
+                  'steps': {'s': {'kind': 'plugin', 'pstep': 'work', 'fields': {'input': tmap(sin)}}},
+                  'outputs': {'success': tmap(out)}}
+            for inp in inputs:
+                sc = gen.make_scenario(wf, {'s': {'exec': {'out': 'success'}}}, inp, None, timeout_ms=15000)
+                scs.append(sc)
+                names.append('%s of (%s, %s) in %s, input %s' % (shape, a, b, where, inp['label']))
+    res = vlib.run_scenarios(ctx.binary(), scs, ctx.work, prefix='t')
+    n_acc = 0
+    for n, r in zip(names, res):
+        rr = r['result']
+        rp = {'kind': 'scenario-raw', 'how': 'verifh run <scenario>', 'scenario': r['scenario'], 'case': n}
+        if rr is None:
+            import engine_check
+            if engine_check.engine_panic(r['stderr'] or ''):
+                ctx.add('C07', 'process-crashed-during-run', engine_check.first_panic_line(r['stderr']), rp)
+            else:
+                ctx.inconclusive('harness died: ' + (r['stderr'] or '')[-200:])
+            continue
+        if rr.get('prepare_err'):
+            continue        # refused: the property holds vacuously
+        n_acc += 1
+        run = rr['runs'][0]
+        if run['is_err'] and 'bug:' in run['err']:
+            ctx.add('C08', 'internal-bug-error-returned', '%s: %s' % (n.split(', input')[0], run['err'][:120]), rp)
+    ctx.cov(typed_collection_cases=len(scs), typed_collection_accepted=n_acc)
+
+
 def run(ctx):
+    typed_collection_part(ctx)
     family.run_family_check(ctx, 'C08', n_quick=40, n_thorough=400, extra_items=loop_items(ctx))
